@@ -371,6 +371,10 @@ func (a *aclList) RecordsAfter(ctx context.Context, id string) (records []*conse
 		if !ok {
 			return nil, ErrNoSuchRecord
 		}
+		if recIdx < 1 {
+			// the root: orders start at 1, and the in-memory storage returns nothing for order 0
+			recIdx = 1
+		}
 	}
 	err = a.storage.GetAfterOrder(ctx, recIdx, func(ctx context.Context, record StorageRecord) (shouldContinue bool, err error) {
 		raw := make([]byte, 0, len(record.RawRecord))
